@@ -139,6 +139,10 @@ def run(ctx):
     proccommon.run_processor(ctx, "C17", "")
     ctx.cov["generator_distribution"] = {"reobserve": keep["generator_distribution"], "processor": ctx.cov.get("generator_distribution")}
     ctx.cov["driver_stats"] = keep["driver_stats"]
+    # ---- 4. the watcher's end of a per-chain request channel (observe_at): the Alephium watcher's request queue, owned by the
+    # harness - nothing may arrive there that the dispatcher did not forward (clause reobs-request-requeued; family alphwatch)
+    from checks import alphwatchcommon
+    alphwatchcommon.run_reobs_for_c17(ctx)
     ctx.cov["rule"] = ("sessions on the real handleReobservationRequests loop (harness-owned clock; the ticker channel is driven by the "
                        "harness with the period the loop asked for; After/Timer/Sleep/AfterFunc on that clock are live and fire when the "
                        "harness advances time): window-boundary sessions (forward at ticker phases around "
@@ -165,7 +169,10 @@ def run(ctx):
                        "random ones. evaluations = case lines; distinct_nontrivial = sessions (and post calls) on which model and "
                        "implementation agreed on every queue length and every drained item and the Spec held on the implementation's own "
                        "behaviour - including: nothing arrived on a watcher queue that a request of the session had not forwarded, and "
-                       "at-most-once per window counted over every delivery of the session")
+                       "at-most-once per window counted over every delivery of the session; plus the Alephium watcher's request queue "
+                       "(alphwatchcommon.run_reobs_for_c17: the real handleObsvRequest loop on a queue of production capacity that the harness owns, one "
+                       "forwarded request at a time while each kind of node request of the re-observation path fails once / three times and "
+                       "recovers, ~250 generated single-request cases; whatever else is on the queue after the request was handled is recorded)")
     ctx.cov["trusted_base"] += [
         "harness/guardiand/c17_reobserve_verif_test.go: c17Clock (Now() set by the harness; Ticker(d) returns a ticker whose channel the harness drives, d is recorded and compared with the extracted period; every other timer of the clock is served by a benbjohnson/clock mock created at the harness' time when first armed and moved by Mock.Set on every advance), barrier-request synchronisation, Whv/Driver/Reobserve.lean (comparison + Spec ghost state, stray-arrival accounting); the `burst` / `rdrain` abbreviation of scale sessions (harness: a request goes into a burst line only if it was taken and nothing but the named chain's queue changed while it was handled, anything else is written as the req line it is; driver: expands every burst into its requests and every run into its items)",
         "the admin entry point is called on a nodePrivilegedService value holding only the outbound queue and a logger (the fields SendObservationRequest uses); the gRPC transport in front of it is not exercised",
